@@ -69,6 +69,7 @@ func raceC07() {
 
 // raceC10: browsers saving and loading sessions of different sizes concurrently (both stores).
 func raceC10() {
+	world.NewIdP()
 	up := world.NewUpstream("race")
 	defer up.Close()
 	for _, store := range []string{"cookie", "redis"} {
